@@ -6,7 +6,7 @@
    Quantifiers are unbounded: any number of readouts, any rational times, any number of models. *)
 From Coq Require Import QArith List Bool.
 From Coq Require Import String.
-From PyxelV Require Import Model.Flux Proofs.Flux Model.FluxExpr Proofs.FluxExpr.
+From PyxelV Require Import Model.Flux Proofs.Flux Model.FluxExpr Proofs.FluxExpr Model.FluxDet Proofs.FluxDet.
 From PyxelGen Require Import Gen_C17.
 Import ListNotations.
 Open Scope Q_scope.
@@ -161,6 +161,20 @@ Theorem C17_readout_guards_are_valid_schedule :
 Proof. apply accepted_is_valid_schedule. vm_compute. reflexivity. Qed.
 Print Assumptions C17_readout_guards_are_valid_schedule.
 
+(* ---- every run goes through Detector.set_readout -> ReadoutProperties.__init__, which has its own copy of
+   the refusals (it is the only gate for a schedule given through the `times` setter of Readout, which does not
+   check monotonicity): on non-empty schedules they too accept exactly valid_schedule *)
+Theorem C17_detector_guards_are_valid_schedule :
+  forall (start t0 : Q) (r : list Q),
+  accepted false detector_readout_guards start (t0 :: r) = valid_schedule start (t0 :: r).
+Proof.
+  intros start t0 r.
+  change (accepted false detector_readout_guards start (t0 :: r))
+    with (accepted true detector_readout_guards start (t0 :: r)).
+  apply accepted_is_valid_schedule. vm_compute. reflexivity.
+Qed.
+Print Assumptions C17_detector_guards_are_valid_schedule.
+
 (* ---- non-vacuity: the table has deterministic rows; a concrete expression of the shape found in load_image
    (ADU -> photon conversion) is linear with the expected rate, and the ways of getting it wrong are rejected:
    the step forgotten in one branch, the clock used instead of the step, the step squared, a floor on the step *)
@@ -182,4 +196,133 @@ Example C17_rows_nonvacuous :
   (* dropping a guard is noticed: without the monotonicity check a decreasing schedule would be accepted *)
   guards_complete true [GFirstZero; GStartGeFirst] = false /\
   accepted true [GFirstZero; GStartGeFirst] 0 [2; 1] = true /\ valid_schedule 0 [2; 1] = false.
+Proof. vm_compute. repeat split; reflexivity. Qed.
+
+(* ==== the conversion and collection models (conv_table, regenerated from photoelectrons.py / collection.py) ====
+
+   ---- for every option branch of simple_conversion / conversion_with_qe_map that draws no random numbers, what
+   the source adds to the charge bucket is (a factor that depends neither on the photons nor on the time step) *
+   photon: it IS the op Convert of the exposure model; what simple_collection adds to the pixel bucket is the
+   charge bucket itself: it IS the op Collect.  No branch truncates, offsets, squares or re-scales by the step *)
+Theorem C17_conversion_rows_are_model_ops :
+  forall r, In r conv_table -> has_random (cr_expr r) = false ->
+  forall (env : string -> Q) (step : Q) (s : st),
+  if cr_identity r
+  then cr_src r = BkCharge /\ cr_sink r = BkPixel /\
+       (let s' := apply_op step s Collect in
+        pixel s' == pixel s + eval env (charge s) (cr_expr r) /\ photon s' = photon s /\ charge s' = charge s)
+  else cr_src r = BkPhoton /\ cr_sink r = BkCharge /\
+       (let s' := apply_op step s (Convert (qe_of env r)) in
+        charge s' == charge s + eval env (photon s) (cr_expr r) /\ photon s' = photon s /\ pixel s' = pixel s).
+Proof. apply conv_rows_are_ops. vm_compute. reflexivity. Qed.
+Print Assumptions C17_conversion_rows_are_model_ops.
+
+Theorem C17_conversion_rows_linear :
+  forall r, In r conv_table -> has_random (cr_expr r) = false ->
+  forall (env : string -> Q) (x : Q), eval env x (cr_expr r) == qe_of env r * x.
+Proof. apply conv_rows_step_free. vm_compute. reflexivity. Qed.
+Print Assumptions C17_conversion_rows_linear.
+
+(* ---- non-vacuity: each of the three models has a deterministic row; and what the check rejects: a photon count
+   truncated to an integer before the QE is applied, a conversion scaled by the time step, a collection that adds
+   a multiple of the charge, a collection that reads the photon bucket *)
+Example C17_conversion_rows_nonvacuous :
+  conv_models_covered conv_table conv_models = true /\ (3 <=? List.length conv_models)%nat = true /\
+  conv_row_ok {| cr_model := "m"; cr_path := ""; cr_src := BkPhoton; cr_sink := BkCharge; cr_identity := false;
+                 cr_expr := TMul TStep (TVar "qe") |} = true /\
+  conv_row_ok {| cr_model := "m"; cr_path := ""; cr_src := BkPhoton; cr_sink := BkCharge; cr_identity := false;
+                 cr_expr := TMul (TBad BNonlin "array.astype(int)") (TVar "qe") |} = false /\
+  conv_row_ok {| cr_model := "m"; cr_path := ""; cr_src := BkPhoton; cr_sink := BkCharge; cr_identity := false;
+                 cr_expr := TMul (TMul TStep (TVar "qe")) (TBad BClock "detector.time_step") |} = false /\
+  conv_row_ok {| cr_model := "m"; cr_path := ""; cr_src := BkCharge; cr_sink := BkPixel; cr_identity := true;
+                 cr_expr := TMul TStep (TConst 2) |} = false /\
+  conv_row_ok {| cr_model := "m"; cr_path := ""; cr_src := BkPhoton; cr_sink := BkPixel; cr_identity := true;
+                 cr_expr := TStep |} = false.
+Proof. vm_compute. repeat split; reflexivity. Qed.
+
+(* ==== the lifecycle of the buckets, per detector type and per readout loop (tables regenerated by
+   translator/c17_life.py from pyxel/detectors/** and from every function that calls detector.empty) =========
+
+   ---- for EVERY class of the Detector family found in the source (CCD, CMOS, MKID, APD, ...: with its own
+   `empty` or an inherited one, whatever it forwards to its parent), for EVERY function that runs the readouts
+   (run_pipeline, the deprecated copy), both readout modes, and ANY bucket content left in the detector by
+   earlier use: the exposure is the one of Model/Flux.v — photon and charge are emptied at every readout, pixel
+   exactly when the readout is destructive, and the exposure starts from an empty detector *)
+Theorem C17_bucket_lifecycle_every_detector :
+  forall c lp, In c det_table -> In lp loop_table ->
+  forall (nd : bool) (ops : list mop) (s_init : st) (start : Q) (ts : list Q),
+  run_exposure_of det_table (dc_name c) lp nd ops s_init start ts = run_exposure nd ops start ts.
+Proof. apply lifecycle_run_exposure. vm_compute. reflexivity. Qed.
+Print Assumptions C17_bucket_lifecycle_every_detector.
+
+(* ---- hence the property itself on every detector type, by every loop, from any initial content: the final
+   pixel charge of a non-destructive exposure is (total rate) * (t_end - start) for any partition *)
+Theorem C17_partition_independent_every_detector :
+  forall c lp, In c det_table -> In lp loop_table ->
+  forall (ops : list mop) (s1 s2 : st) (start : Q) (ts1 ts2 : list Q) (tr1 tr2 : list st),
+  wf_ops ops = true ->
+  run_exposure_of det_table (dc_name c) lp true ops s1 start ts1 = Some tr1 ->
+  run_exposure_of det_table (dc_name c) lp true ops s2 start ts2 = Some tr2 ->
+  last ts1 start == last ts2 start ->
+  pixel (last tr1 st0) == Ktot ops * (last ts1 start - start) /\
+  pixel (last tr1 st0) == pixel (last tr2 st0).
+Proof.
+  intros c lp Hc Hlp ops s1 s2 start ts1 ts2 tr1 tr2 Hwf H1 H2 Hl.
+  rewrite (C17_bucket_lifecycle_every_detector c lp Hc Hlp) in H1, H2.
+  exact (partition_independent ops start ts1 ts2 tr1 tr2 Hwf H1 H2 Hl).
+Qed.
+Print Assumptions C17_partition_independent_every_detector.
+
+(* ---- and in destructive mode every frame is (total rate) * (its own duration), on every detector type *)
+Theorem C17_destructive_frames_every_detector :
+  forall c lp, In c det_table -> In lp loop_table ->
+  forall (ops : list mop) (s_init : st) (start : Q) (ts : list Q) (tr : list st),
+  wf_ops ops = true ->
+  run_exposure_of det_table (dc_name c) lp false ops s_init start ts = Some tr ->
+  Forall2 Qeq (map pixel tr) (d_closed (Ktot ops) start ts).
+Proof.
+  intros c lp Hc Hlp ops s_init start ts tr Hwf H.
+  rewrite (C17_bucket_lifecycle_every_detector c lp Hc Hlp) in H.
+  exact (proj1 (destructive_proportional ops start ts tr Hwf H)).
+Qed.
+Print Assumptions C17_destructive_frames_every_detector.
+
+(* ---- non-vacuity: the regenerated table has the four detector types and both loops; a class that overrides
+   `empty` is among them.  What the statement excludes, on a hand-written table: an override that calls the
+   parent's empty WITHOUT the flag (so that the parent's default True applies) wipes the pixel bucket of that
+   type at every readout — the final frame of a 3-readout non-destructive exposure then holds the last interval
+   only (rate 2 over [0,3] read at 1, 2, 3 gives 2 instead of 6); so does a loop that passes the wrong flag *)
+Definition ex_root : det_class :=
+  {| dc_name := "Detector"; dc_parent := "";
+     dc_empty := Some {| ed_default := Some true;
+                         ed_true := {| ec_super := None; ec_clears := ["photon"; "charge"; "pixel"]; ec_may := [] |};
+                         ed_false := {| ec_super := None; ec_clears := ["photon"; "charge"]; ec_may := [] |} |} |}.
+Definition ex_sub (on_false : option bool) : det_class :=
+  {| dc_name := "Sub"; dc_parent := "Detector";
+     dc_empty := Some {| ed_default := Some true;
+                         ed_true := {| ec_super := Some true; ec_clears := []; ec_may := ["phase"] |};
+                         ed_false := {| ec_super := on_false; ec_clears := []; ec_may := [] |} |} |}.
+Definition ex_loop (a_nd : earg) : loop_def := {| lp_name := "loop"; lp_pre := [EDefault]; lp_nd := a_nd; lp_d := EBool true |}.
+
+Example C17_lifecycle_nonvacuous :
+  (4 <=? List.length det_table)%nat = true /\ (2 <=? List.length loop_table)%nat = true /\
+  existsb (fun c => match dc_empty c with Some _ => negb (String.eqb (dc_parent c) "") | None => false end) det_table = true /\
+  existsb (fun c => match dc_empty c with None => true | Some _ => false end) det_table = true /\
+  lifecycle_ok [ex_root; ex_sub (Some false)] [ex_loop (EBool false)] = true /\
+  lifecycle_ok [ex_root; ex_sub (Some true)] [ex_loop (EBool false)] = false /\
+  bad_classes [ex_root; ex_sub (Some true)] = ["Sub"] /\
+  lifecycle_ok [ex_root; ex_sub None] [ex_loop (EBool false)] = false /\
+  lifecycle_ok [ex_root; ex_sub (Some false)] [ex_loop EDefault] = false /\
+  bad_loops [ex_root; ex_sub (Some false)] [ex_loop EDefault] = ["loop"] /\
+  lifecycle_ok [ex_root; ex_sub (Some false)] [{| lp_name := "l"; lp_pre := []; lp_nd := EBool false; lp_d := EBool true |}] = false /\
+  option_map (map (fun s => Qred (pixel s)))
+    (run_exposure_of [ex_root; ex_sub (Some false)] "Sub" (ex_loop (EBool false)) true [ChargeRate 2; Collect] (mkst 9 9 9) 0 [1; 2; 3])
+    = Some [2; 4; 6] /\
+  option_map (map (fun s => Qred (pixel s)))
+    (run_exposure_of [ex_root; ex_sub (Some true)] "Sub" (ex_loop (EBool false)) true [ChargeRate 2; Collect] (mkst 9 9 9) 0 [1; 2; 3])
+    = Some [2; 2; 2] /\
+  option_map (map (fun s => Qred (pixel s)))
+    (run_exposure_of [ex_root; ex_sub (Some false)] "Sub" {| lp_name := "l"; lp_pre := []; lp_nd := EBool false; lp_d := EBool true |}
+                     true [ChargeRate 2; Collect] (mkst 9 9 9) 0 [1; 2; 3])
+    = Some [11; 13; 15].
 Proof. vm_compute. repeat split; reflexivity. Qed.
